@@ -35,15 +35,50 @@ impl BTree {
 //@|     (r is Ok && r->Ok_0 == true) ==> exists|l: u64, i: int| #[trigger] deleted_at(old(pager), final(pager), l, i, key@, payload),
 //@|     // a failed delete touched at most one page
 //@|     r is Err ==> forall|x: u64, y: u64| pg(final(pager), x) != pg(old(pager), x) && pg(final(pager), y) != pg(old(pager), y) ==> x == y,
+//@|     final(self).root == old(self).root,
+//@|     // WHERE it looks first: the leaf the descent by internal_child_for_key reaches, at the lower-bound slot of the key; when
+//@|     // the entry there is the pair, that entry is the one removed
+//@|     r is Ok ==> exists|l0: u64, h: nat| #[trigger] reaches(old(pager), old(self).root.0, key@, l0, h) && leaf_wf(pg(old(pager), l0))
+//@|         && ({ let i0 = lb_pos(leaf_keys(pg(old(pager), l0)), key@);
+//@|               i0 < pg_count(pg(old(pager), l0)) && leaf_cells(pg(old(pager), l0))[i0] == (key@, payload)
+//@|                   ==> r->Ok_0 == true && deleted_at(old(pager), final(pager), l0, i0, key@, payload) }),
 //@prewrite "if k != key {" => "if v_bytes_ne(k, key) {"
+//@proof before 1 "let mut cur = self.root;" raw
+//@| let ghost mut depth: nat = 0;
 //@loop 1
 //@| invariant tree_pages_ok(old(pager)), forall|o: u64| #[trigger] pg(pager, o) == pg(old(pager), o),
+//@|     visits(old(pager), self.root.0, key@, cur.0, depth),
 //@| ensures pg_kind_ok(pg(old(pager), cur.0)) && pg(old(pager), cur.0)[4] == 0,
+//@|     visits(old(pager), self.root.0, key@, cur.0, depth),
+//@proof after 1 "let (child, _) = page.internal_child_for_key(key)?;" raw
+//@| proof {
+//@|     let b = pg(old(pager), cur.0);
+//@|     let pos = choose|pos: int| 0 <= pos <= pg_count(b) && child.0 == int_child(b, pos) && is_lb(int_seps(b), key@, pos);
+//@|     lemma_visits_extend(old(pager), self.root.0, key@, cur.0, depth, pos);
+//@|     depth = depth + 1;
+//@| }
+//@proof after 1 "let mut idx = " raw
+//@| let ghost l0 = cur.0;
+//@| let ghost idx0 = idx;
+//@| let ghost mut moved: bool = false;
+//@| proof {
+//@|     lemma_visits_leaf(old(pager), self.root.0, key@, l0, depth);
+//@|     assert(is_lb(leaf_keys(pg(old(pager), l0)), key@, idx as int));
+//@|     lemma_lb_unique(leaf_keys(pg(old(pager), l0)), key@, idx as int, lb_pos(leaf_keys(pg(old(pager), l0)), key@));
+//@| }
 //@loop 2
 //@| invariant tree_pages_ok(old(pager)), forall|o: u64| #[trigger] pg(pager, o) == pg(old(pager), o),
 //@|     buf@ == pg(old(pager), cur.0), leaf_wf(buf@), keys_sorted(leaf_cells(buf@)), idx <= 65535,
+//@|     !moved ==> cur.0 == l0 && idx == idx0,
+//@|     moved ==> !(idx0 < pg_count(pg(old(pager), l0)) && leaf_cells(pg(old(pager), l0))[idx0 as int] == (key@, payload)),
+//@|     idx0 as int == lb_pos(leaf_keys(pg(old(pager), l0)), key@), leaf_wf(pg(old(pager), l0)),
+//@|     reaches(old(pager), self.root.0, key@, l0, depth),
 //@proof before 1 "=return Ok(true);"
 //@| assert(deleted_at(old(pager), pager, cur.0, idx as int, key@, payload));
+//@proof? before 1 "=continue;" raw
+//@| proof { moved = true; }
+//@proof? before 1 "=idx += 1;" raw
+//@| proof { moved = true; }
 //@end
 }
 
@@ -204,6 +239,14 @@ pub proof fn lemma_visits_mono(p: &Pager, cur: u64, key: Seq<u8>, x: u64, h: nat
 {
     if cur != x { lemma_visits_mono(p, int_child(pg(p, cur), lb_pos(int_seps(pg(p, cur)), key)), key, x, (h - 1) as nat, (h2 - 1) as nat); }
 }
+/// a descent that passes through a leaf ends there
+pub proof fn lemma_visits_leaf(p: &Pager, cur: u64, key: Seq<u8>, x: u64, h: nat)
+    requires visits(p, cur, key, x, h), pg_kind_ok(pg(p, x)) && pg(p, x)[4] == 0,
+    ensures reaches(p, cur, key, x, h),
+    decreases h
+{
+    if cur != x { lemma_visits_leaf(p, int_child(pg(p, cur), lb_pos(int_seps(pg(p, cur)), key)), key, x, (h - 1) as nat); }
+}
 /// C18.btree.frame — every ALLOCATED page whose stored content differs between `o` and `n` is one of the pages of
 /// the recorded descent (pages that were free in `o` may have been allocated and written)
 pub open spec fn frame_path(o: &Pager, n: &Pager, path: Seq<PathEntry>) -> bool {
@@ -268,23 +311,19 @@ impl BTree {
 //@| let ghost mut depth: nat = 0;
 //@loop 1
 //@| invariant tree_pages_ok(pager),
-//@|     forall|l: u64, h: nat| reaches(pager, cur.0, key@, l, h) ==> #[trigger] reaches(pager, self.root.0, key@, l, h + depth),
+//@|     visits(pager, self.root.0, key@, cur.0, depth),
 //@proof after 1 "let (child, _) = page.internal_child_for_key(key)?;" raw
 //@| proof {
 //@|     let b = pg(pager, cur.0);
 //@|     let pos = choose|pos: int| 0 <= pos <= pg_count(b) && child.0 == int_child(b, pos) && is_lb(int_seps(b), key@, pos);
-//@|     assert forall|l: u64, h: nat| reaches(pager, child.0, key@, l, h) implies #[trigger] reaches(pager, self.root.0, key@, l, h + (depth + 1)) by {
-//@|         lemma_reaches_step(pager, cur.0, key@, pos, l, h);
-//@|         assert(reaches(pager, self.root.0, key@, l, (h + 1) + depth));
-//@|     }
+//@|     lemma_visits_extend(pager, self.root.0, key@, cur.0, depth, pos);
 //@|     depth = depth + 1;
 //@| }
 //@proof after 1 "let mut slot = page.leaf_lower_bound(key)? as u16;" raw
 //@| let ghost l0 = cur.0;
 //@| let ghost slot0 = slot;
 //@| proof {
-//@|     assert(reaches(pager, cur.0, key@, cur.0, 0nat));
-//@|     assert(reaches(pager, self.root.0, key@, l0, 0nat + depth));
+//@|     lemma_visits_leaf(pager, self.root.0, key@, l0, depth);
 //@|     assert(is_lb(leaf_keys(pg(pager, l0)), key@, slot as int));
 //@|     lemma_lb_unique(leaf_keys(pg(pager, l0)), key@, slot as int, lb_pos(leaf_keys(pg(pager, l0)), key@));
 //@| }
@@ -821,6 +860,36 @@ pub open spec fn propagated_ok(o: &Pager, n: &Pager, path: Seq<PathEntry>, root_
               && propagated_ok(&m, n, path.drop_last(), root_o, root_n, path.last().page.0, promote, r2)
     }
 }
+/// the descent for the key passes through every recorded page
+pub proof fn lemma_path_visits(p: &Pager, path: Seq<PathEntry>, root: u64, key: Seq<u8>, k: int)
+    requires path_ok(p, path), path_for_key(p, path, key), 0 <= k < path.len(), path[0].page.0 == root,
+    ensures visits(p, root, key, path[k].page.0, k as nat),
+    decreases k
+{
+    if k > 0 {
+        lemma_path_visits(p, path, root, key, k - 1);
+        lemma_path_ok_at(p, path, k - 1);
+        assert(is_lb(int_seps(pg(p, path[k - 1].page.0)), key, path[k - 1].child_pos as int)) by { reveal(path_for_key); }
+        lemma_visits_extend(p, root, key, path[k - 1].page.0, (k - 1) as nat, path[k - 1].child_pos as int);
+    }
+}
+/// C18.btree.frame for BTree::insert with a split: the leaf changed first (o -> m), then pages of the recorded descent (m -> n)
+pub proof fn lemma_insert_frame(o: &Pager, m: &Pager, n: &Pager, path: Seq<PathEntry>, root: u64, key: Seq<u8>, l: u64, d: nat)
+    requires path_ok(o, path), path_for_key(o, path, key), path_leads_to(o, path, root, l), visits(o, root, key, l, d),
+        live_kept(o, m), live_kept(m, n), frame_path(m, n, path),
+        forall|x: u64| live(o, x) && x != l ==> #[trigger] pg(m, x) == pg(o, x),
+    ensures live_kept(o, n),
+        forall|x: u64| live(o, x) && #[trigger] pg(n, x) != pg(o, x) ==> exists|h: nat| visits(o, root, key, x, h),
+{
+    assert forall|x: u64| live(o, x) && #[trigger] pg(n, x) != pg(o, x) implies exists|h: nat| visits(o, root, key, x, h) by {
+        if pg(m, x) != pg(o, x) { assert(x == l); }
+        else {
+            lemma_frame_elim(m, n, path, x);
+            let k = choose|k: int| 0 <= k < path.len() && path[k].page.0 == x;
+            lemma_path_visits(o, path, root, key, k);
+        }
+    }
+}
 /// C26.tree.insert.split_parent_room — what an insert that split leaf `l` (new right leaf `r`) did when the parent, the
 /// last page of the recorded descent `path`, had room for the separator: `l` and `r` hold the two parts of the old
 /// run with the new entry at its lower-bound position, `r` is chained in behind `l`, the parent got exactly the
@@ -1030,6 +1099,7 @@ impl BTree {
 //@|     // tree's root for the key; everything else that was written had been free; nothing was freed
 //@|     forall|x: u64| live(old(pager), x) && #[trigger] pg(final(pager), x) != pg(old(pager), x) ==> exists|h: nat| visits(old(pager), old(self).root.0, key@, x, h),
 //@|     live_kept(old(pager), final(pager)),
+//@preregex "self\.insert_into_parent\(pager, &mut path, ([^;]*)\)\?;" => "let ip_r = self.insert_into_parent(pager, &mut path, \1); proof { lemma_insert_frame(old(pager), &mid_store, pager, path0, old(self).root.0, key@, cur.0, depth); } ip_r?;"
 //@preregex "(?s)\(0\.\.page\.cell_count\(\)\)\s*\.map\(\|i\| \{.*?\}\)\s*\.collect\(\);" => "v_collect_leaf_entries(&page);"
 //@prewrite "entries.partition_point(|(k, _)| k.as_slice() < key)" => "v_partition_point_lt(&entries, key)"
 //@prewrite "(key.to_vec(), payload)" => "(v_slice_to_vec(key), payload)"
@@ -1045,14 +1115,11 @@ impl BTree {
 //@|     key@.len() <= 0x7fff_ffff_ffff_ffff, ranked(old(pager), rank), path_ok(old(pager), path@),
 //@|     forall|k: int| 0 <= k < path@.len() ==> rank((#[trigger] path@[k]).page.0) > rank(cur.0),
 //@|     path_leads_to(old(pager), path@, self.root.0, cur.0), *self == *old(self), path_for_key(old(pager), path@, key@),
-//@|     forall|l: u64, h: nat| reaches(old(pager), cur.0, key@, l, h) ==> #[trigger] reaches(old(pager), self.root.0, key@, l, h + depth),
 //@|     visits(old(pager), self.root.0, key@, cur.0, depth),
-//@|     forall|k: int| 0 <= k < path@.len() ==> visits(old(pager), self.root.0, key@, (#[trigger] path@[k]).page.0, depth),
 //@| decreases rank(cur.0),
 //@proof before 1 "=return Ok(());"
 //@| assert(inserted_at(old(pager), pager, cur.0, idx as int, key@, payload));
-//@| assert(reaches(old(pager), cur.0, key@, cur.0, 0nat));
-//@| assert(reaches(old(pager), old(self).root.0, key@, cur.0, 0nat + depth));
+//@| lemma_visits_leaf(old(pager), old(self).root.0, key@, cur.0, depth);
 //@proof after 1 "let (child, child_pos) = page.internal_child_for_key(key)?;"
 //@| assert(child.0 == int_child(pg(old(pager), cur.0), child_pos as int));
 //@| assert(rank(child.0) < rank(cur.0));
@@ -1062,15 +1129,7 @@ impl BTree {
 //@|     lemma_path_for_key_push(old(pager), path@, key@, PathEntry { page: cur, child_pos });
 //@|     assert forall|k: int| 0 <= k < path@.len() implies (#[trigger] path@[k]).page.0 != cur.0 by { assert(rank(path@[k].page.0) > rank(cur.0)); }
 //@|     lemma_path_ok_push(old(pager), path@, PathEntry { page: cur, child_pos });
-//@|     assert forall|l: u64, h: nat| reaches(old(pager), child.0, key@, l, h) implies #[trigger] reaches(old(pager), self.root.0, key@, l, h + (depth + 1)) by {
-//@|         lemma_reaches_step(old(pager), cur.0, key@, child_pos as int, l, h);
-//@|         assert(reaches(old(pager), self.root.0, key@, l, (h + 1) + depth));
-//@|     }
 //@|     lemma_visits_extend(old(pager), self.root.0, key@, cur.0, depth, child_pos as int);
-//@|     assert forall|k: int| 0 <= k < path@.len() implies visits(old(pager), self.root.0, key@, (#[trigger] path@[k]).page.0, depth + 1) by {
-//@|         lemma_visits_mono(old(pager), self.root.0, key@, path@[k].page.0, depth, depth + 1);
-//@|     }
-//@|     lemma_visits_mono(old(pager), self.root.0, key@, cur.0, depth, depth + 1);
 //@|     depth = depth + 1;
 //@| }
 //@proof before 1 "let pos = " raw
@@ -1128,6 +1187,37 @@ impl BTree {
 //@|     assert(split_insert_ok(o, pager, path0, old(self).root.0, l, rr, pos as int, key@, payload));
 //@| }
 //@end
+}
+
+/// C26.tree.delete_after_insert — the property's third sentence for the pair just inserted (insert without split), as
+/// a lemma whose hypotheses are the postconditions of BTree::insert on store `o` -> `n` and of BTree::delete on store
+/// `n` -> `n2`: deleting the pair succeeds (when no I/O error occurs), removes exactly that entry from the leaf it went
+/// to, leaves every other page alone, and the leaf holds exactly the entries it held before the insert.
+pub proof fn lemma_delete_after_insert(o: &Pager, n: &Pager, n2: &Pager, root: u64, key: Seq<u8>, payload: u64, l: u64, i: int, h: nat, l0: u64, h0: nat, deleted: bool)
+    requires
+        // postcondition of insert (no-split case)
+        inserted_at(o, n, l, i, key, payload), reaches(o, root, key, l, h), keys_sorted(leaf_cells(pg(o, l))),
+        // postcondition of delete(key, payload) on the new store, result Ok(deleted)
+        reaches(n, root, key, l0, h0), leaf_wf(pg(n, l0)),
+        ({ let i0 = lb_pos(leaf_keys(pg(n, l0)), key);
+           i0 < pg_count(pg(n, l0)) && leaf_cells(pg(n, l0))[i0] == (key, payload) ==> deleted == true && deleted_at(n, n2, l0, i0, key, payload) }),
+    ensures deleted, l0 == l, leaf_cells(pg(n2, l)) == leaf_cells(pg(o, l)), forall|x: u64| x != l ==> #[trigger] pg(n2, x) == pg(o, x),
+{
+    lemma_reaches_frame(o, n, root, key, l, h, l);
+    lemma_reaches_unique(n, root, key, l, h, l0, h0);
+    let cells0 = leaf_cells(pg(o, l));
+    lemma_insert_at_lower_bound(cells0, i, key, payload);
+    let ks = leaf_keys(pg(n, l));
+    let c1 = leaf_cells(pg(n, l));
+    assert(c1 == cells0.insert(i, (key, payload)));
+    assert(ks.len() == c1.len() && c1.len() == cells0.len() + 1);
+    assert(is_lb(ks, key, i)) by {
+        assert forall|j: int| 0 <= j < i implies lex_lt(#[trigger] ks[j], key) by { assert(ks[j] == c1[j].0); assert(lex_lt(cells0.insert(i, (key, payload))[j].0, key)); }
+        assert forall|j: int| i <= j < ks.len() implies lex_le(key, #[trigger] ks[j]) by { assert(ks[j] == c1[j].0); assert(lex_le(key, cells0.insert(i, (key, payload))[j].0)); }
+    }
+    lemma_lb_unique(ks, key, i, lb_pos(ks, key));
+    assert(c1[i] == (key, payload));
+    assert(cells0.insert(i, (key, payload)).remove(i) =~= cells0);
 }
 
 /// inserting a separator at the recorded position moves the lower bound of the key by at most one
